@@ -1378,6 +1378,13 @@ def run(tier, seed, replay=None):
                 index.append(("chain", ri, n))
     res = []
     if proved and exprs:
+        # backstop: no case file may take the machine down (limit inherited by the coqc children)
+        import resource
+        soft0, hard0 = resource.getrlimit(resource.RLIMIT_AS)
+        try:
+            resource.setrlimit(resource.RLIMIT_AS, (10 * 2 ** 30, hard0))
+        except (ValueError, OSError):
+            pass
         try:
             try:
                 res = C.run_cases(PID, HEADER, exprs, shard=max(8, len(exprs) // 32 + 1), timeout=1200)
@@ -1390,6 +1397,11 @@ def run(tier, seed, replay=None):
         except RuntimeError as e:
             rep.violation("C15:model-eval-failed", str(e)[:300], dict(error=str(e)[-2000:]), False)
             res = []
+        finally:
+            try:
+                resource.setrlimit(resource.RLIMIT_AS, (soft0, hard0))
+            except (ValueError, OSError):
+                pass
     rep.timings["model_eval"] = round(time.time() - t0, 2)
     stats = dict(records=0, chain_replays=0, undecided_near_ties=0, model_undefined=0)
     by_rec = {}
